@@ -272,19 +272,20 @@ source text of the header on every run (`Generated.C19.life*`). -/
 /-- the lifecycle functions as regenerated from enumerable_thread_specific.h / combinable.h -/
 def lifeCfg : Life.Cfg :=
   Life.Cfg.ofCodes Generated.C19.lifeClearKey Generated.C19.lifeClearNo Generated.C19.lifeCtorKey Generated.C19.lifeCtorNo
-    Generated.C19.lifeDtorKey Generated.C19.lifeDtorNo Generated.C19.lifeTlsLookup
+    Generated.C19.lifeDtorKey Generated.C19.lifeDtorNo Generated.C19.lifeTlsLookup Generated.C19.lifeSwapKey
 
 /-- **Generated fact: what `clear()`, the constructor and the destructor do.**  `clear()` of an `ets_key_per_instance`
 container is `my_locals.clear(); destroy_key(); create_key(); super::table_clear()` — it ends with a key that was
 created after the old one was deleted, i.e. one for which EVERY thread's cached pointer is null ("clear invalidates all
 caches"); for `ets_no_key` / `combinable` it is `my_locals.clear(); table_clear()`; the constructor creates the key, the
 destructor clears the table, destroys `my_locals` and deletes the key; the per-instance `table_lookup` consults the TLS
-slot first and fills it after a miss.  Any other sequence (e.g. `set_tls(nullptr)` instead of the key pair, a missing
+slot first and fills it after a miss; `internal_swap` (same-type move construction, move assignment, swap) exchanges the
+native TLS key together with the table and `my_locals` (`lifeSwapKey`).  Any other sequence (e.g. `set_tls(nullptr)` instead of the key pair, a missing
 `destroy_key()`, a missing `super::table_clear()`) makes this theorem — the hypothesis of the lifecycle theorem — false. -/
 theorem ets_lifecycle_generated : lifeCfg = Life.Cfg.expected := by decide
 
 /-- **One element per thread across the container's lifecycle, for every key kind.**  After ANY sequence of `local()`,
-`clear()` and destroy-and-re-create operations by ANY threads, on a container of either kind, with the lifecycle
+`clear()`, destroy-and-re-create and move-assign-a-fresh-container operations by ANY threads, on a container of either kind, with the lifecycle
 functions as regenerated from the header:
 (1) nothing illegal happened (no use of a deleted key, no double delete);
 (2) every `local()` ever returned an element that was alive, in the container, created by the calling thread in the
@@ -338,6 +339,23 @@ example :
     s.rets.reverse.map (fun r => (r.tid, r.cur, r.pgen, r.pos, r.ex, r.own)) =
       [(0, 0, 0, 0, false, true), (0, 1, 0, 0, true, false), (2, 1, 1, 0, false, true)] ∧
     s.locals = [2] ∧ s.inits.count (0, 1) = 0 := by decide
+
+/-- the key must travel with the table in `internal_swap`: if move assignment exchanged the table and `my_locals` but
+NOT the native TLS key, a thread that used the container before `cont = std::move(fresh)` would afterwards get, with
+`exists = true` and no initialiser call, the address of its old element, which died with the temporary (`own = false`),
+and a new thread would be handed the same position. -/
+example :
+    let bad : Life.Cfg := { Life.Cfg.expected with swapKey := false }
+    let s := Life.run bad true [.loc 0, .moveFresh 1, .loc 0, .loc 2]
+    s.rets.reverse.map (fun r => (r.tid, r.cur, r.pgen, r.pos, r.ex, r.own)) =
+      [(0, 0, 0, 0, false, true), (0, 1, 0, 0, true, false), (2, 1, 1, 0, false, true)] ∧
+    s.locals = [2] ∧ s.inits.count (0, 1) = 0 := by decide
+
+/-- … and with the key exchanged the same history is fine -/
+example :
+    let s := Life.run lifeCfg true [.loc 0, .moveFresh 1, .loc 0, .loc 2]
+    s.rets.reverse.map (fun r => (r.tid, r.cur, r.pgen, r.pos, r.ex, r.own)) =
+      [(0, 0, 0, 0, false, true), (0, 1, 1, 0, false, true), (2, 1, 1, 1, false, true)] ∧ s.bad = false := by decide
 
 set_option maxRecDepth 4096 in
 /-- non-vacuity: three threads with colliding hashes (all start at slot 0), thread 0 looks up twice; the table grows
